@@ -230,3 +230,22 @@ Lemma NoDup_app_r {A} (l1 l2 : list A) : NoDup (l1 ++ l2) -> NoDup l2.
 Proof. intros H. apply NoDup_app_iff in H. tauto. Qed.
 Lemma NoDup_app_disj {A} (l1 l2 : list A) x : NoDup (l1 ++ l2) -> In x l1 -> In x l2 -> False.
 Proof. intros H. apply NoDup_app_iff in H. destruct H as [_ [_ H]]. exact (H x). Qed.
+
+(* sorting a sorted list changes nothing *)
+Lemma insert_by_le_all {A} (key : A -> Z) x l :
+  Forall (key_le key x) l -> insert_by key x l = x :: l.
+Proof.
+  destruct l as [|y l]; intros H; cbn [insert_by]; [reflexivity|].
+  inversion H as [|? ? Hy _]; subst. unfold key_le in Hy.
+  destruct (key x <=? key y) eqn:E; [reflexivity|]. apply Z.leb_gt in E. lia.
+Qed.
+
+Lemma sort_by_of_sorted {A} (key : A -> Z) l :
+  StronglySorted (key_le key) l -> sort_by key l = l.
+Proof.
+  induction 1 as [|x l Hs IH Hx]; cbn [sort_by]; [reflexivity|].
+  rewrite IH. apply insert_by_le_all. exact Hx.
+Qed.
+
+Lemma sort_by_idem {A} (key : A -> Z) l : sort_by key (sort_by key l) = sort_by key l.
+Proof. apply sort_by_of_sorted, sort_by_sorted. Qed.
